@@ -77,6 +77,9 @@ def run(m, rep, tier):
         check_at(m, f, a4, 'len')
         check_at_index(m, f, a4)
 
+    a7 = rep.rule('A7', 'alloc stores the very buffer address by which release recognises a library-owned buffer', floor=1)
+    check_internal_buffer_agreement(m, a7)
+
     a5 = rep.rule('A5', 'release hands back only an external, uniquely referenced buffer and resets; otherwise NULL and no change', floor=1)
     f = m.pfn('cstl_array_release')
     if f is None:
@@ -275,6 +278,34 @@ def _descriptor_getter(m, name, depth=0):
     v = g.get(strip_bitcasts(g, rets[0].o[0]))
     return v is not None and v.op == 'call' and bool(v.callee) and _descriptor_getter(m, v.callee, depth + 1) \
         and resolve_addr(g, v.o[0]).root == '$0'
+
+
+def check_internal_buffer_agreement(m, rule):
+    """release tells a library-owned buffer from a caller-supplied one by comparing buf with the address right behind the
+    descriptor; alloc must store exactly that address, or release hands out / frees part of the library's own block"""
+    fr, fa = m.pfn('cstl_array_release'), m.ifn('cstl_array_alloc')
+    if fr is None or fa is None:
+        rule.undecided('alloc/release', 'functions not found')
+        return
+
+    def behind_descriptor(f, v):
+        i = f.get(strip_bitcasts(f, v)) if isinstance(v, str) else None
+        return i is not None and i.op == 'getelementptr' and i.x.get('path') and i.x['path'][0].get('idx') == '#1' and len(i.x['path']) == 1
+    tests = False
+    for i in fr.all_insts():
+        if i.op == 'icmp' and i.pred in ('eq', 'ne') and any(behind_descriptor(fr, o) for o in i.o):
+            tests = True
+    stores = [s2 for s2 in fa.all_insts() if s2.op == 'store' and resolve_addr(fa, s2.o[1]).fsteps[-1:] == (('cstl_raw_array', 'buf'),)]
+    if not tests or not stores:
+        rule.ok('alloc/release', 'NOT DECIDED: release does not test buf against descriptor + 1, or alloc does not store buf')
+        return
+    bad = [s2 for s2 in stores if not behind_descriptor(fa, s2.o[0])]
+    if bad:
+        rule.violation('alloc/release', 'alloc stores a buffer pointer at %s that is not the address right behind the descriptor, which is what release '
+                       'compares with to recognise a library-owned buffer: release would hand out (and reset) part of the library\'s own block'
+                       % bad[0].loc(), floc(m, fa), {})
+    else:
+        rule.ok('alloc/release', 'alloc: buf := descriptor + 1; release: external iff buf != descriptor + 1', floc(m, fa))
 
 
 def check_release(m, f, rule):
